@@ -330,9 +330,19 @@ def compare_serial(drv, case, subs, obs, dmap):
     dfr = RW.luba_deframe if drv == "luba" else RW.sci_deframe
     exp = []
     dt = 0
+    # the reference deframes the whole byte stream (a frame may span several reads); a frame is timed by the
+    # read that completed it
+    stream = b""
+    seen = 0
+    timed = []
     for (t, chunk) in obs["delivered"]:
-        d = dfr(chunk)
-        for fb in d["observed"]:
+        stream += bytes(chunk)
+        allobs = dfr(stream)["observed"]
+        for fb in allobs[seen:]:
+            timed.append((t, fb))
+        seen = len(allobs)
+    for (t, fb) in timed:
+        for fb in [fb]:
             bits = 8 * len(fb)
             value = int.from_bytes(bytes(fb), "big")
             cmd = command.from_frame(frame.ForwardFrame(bits, value), devicetype=dt, dev_inst_map=dmap)
@@ -370,7 +380,7 @@ UNKNOWN = [(16, 0xCB00), (16, 0xA001 & 0xFFFF), (24, 0x01FEF0), (24, 0xE1FE00)]
 def transaction(draw):
     """One bus transaction by another master: list of (dt_offset, kind, bits, value)."""
     k = draw(st.sampled_from(["plain", "query+answer", "query+silence", "query+error", "twice", "once", "interrupted",
-                              "twice+backward", "dt+ext", "dt-alone", "f24", "event", "unknown", "stray-backward", "busok"]))
+                              "twice+backward", "twice-other-length", "dt+ext", "dt-alone", "f24", "event", "unknown", "stray-backward", "busok"]))
     small = draw(st.sampled_from([0.012, 0.02, 0.05, 0.1]))
     if k == "plain":
         return [(0, "forward", 16, draw(st.sampled_from(PLAIN16)))]
@@ -383,6 +393,11 @@ def transaction(draw):
         elif k == "query+error":
             t.append((small, "error", 8, 0))
         return t
+    if k == "twice-other-length":
+        # the "repeat" has the same numeric value but another frame length: not a repeat
+        c = draw(st.sampled_from(TWICE16))
+        return [(0, "forward", 16, c), (small, "forward", 24, c)] if draw(st.booleans()) else \
+            [(0, "forward", 24, c), (small, "forward", 16, c)]
     if k in ("twice", "once", "interrupted", "twice+backward"):
         c = draw(st.sampled_from(TWICE16 + [0xFFFE1D]))
         bits = 24 if c > 0xFFFF else 16
@@ -461,6 +476,13 @@ def case_strategy(draw, driver=None):
         if not events[-1]["notify"]:
             events.append({"t": round(t + 0.05, 4), "what": "hup"})
         events.append({"t": round(t + 0.3, 4), "what": "restore"})
+        lost = [e for e in events if e["what"] == "lose"][-1]
+        t_open = t + (0.0 if lost["notify"] else 0.05) + 1.0      # noticed at once or at the hang-up; retry one interval later
+        if draw(st.booleans()):
+            # another master talks while the driver is still doing its version/serial handshake on the new connection
+            for off in draw(st.lists(st.sampled_from([0.0007, 0.0021, 0.0034, 0.0052, 0.0068, 0.0085]), min_size=1, max_size=3, unique=True)):
+                inject.append({"t": round(t_open + off, 5), "kind": "forward", "bits": 16, "value": draw(st.sampled_from(PLAIN16)),
+                               "during_handshake": True})
         t += 2.0           # reconnection attempt one interval (1 s) after the loss was noticed, then the handshake
         for j in range(draw(st.integers(1, 3))):
             dt_, ext = draw(st.sampled_from(DTEXT))
@@ -472,6 +494,19 @@ def case_strategy(draw, driver=None):
                     inject.append({"t": round(t + d_, 4), "kind": kind, "bits": bits, "value": value})
                 t += max([x[0] for x in tr] + [0])
             t += draw(st.sampled_from([0.05, 0.31, 0.5]))
+    if drv in ("luba", "sci") and draw(st.integers(0, 2)) == 0:
+        fw = [x for x in inject if x["kind"] == "forward"]
+        if fw:
+            # one observed frame reaches the host in two reads, and the program starts a transmission in between
+            x = draw(st.sampled_from(fw))
+            gap = draw(st.sampled_from([0.002, 0.006, 0.012]))
+            x["split"] = [draw(st.integers(1, 6)), gap]
+            if not any(abs(c["t0"] - x["t"]) < 0.5 for c in callers):
+                k = draw(st.sampled_from(["dapc", "qlevel", "reset"]))
+                c = {"k": k, "a": 40}
+                if k == "qlevel":
+                    c["oc"] = ["value", 0x33]
+                callers.append({"kind": "send", "cmds": [c], "t0": round(x["t"] + gap / 2, 5)})
     # subscribers: some from the start, some joining / leaving at odd instants
     nsub = draw(st.integers(0, 3))
     for k in range(nsub):
@@ -512,6 +547,10 @@ def features(case):
         f.append("device-lost-and-back-mid-history")
     if any(e.get("raises") for e in case.get("events", [])):
         f.append("subscriber-whose-callback-raises")
+    if any(x.get("split") for x in case.get("inject", [])):
+        f.append("observed-frame-split-over-two-reads-with-own-send-between")
+    if any(x.get("during_handshake") for x in case.get("inject", [])):
+        f.append("traffic-during-reconnect-handshake")
     if any(e.get("op") == "unsub" for e in case.get("events", [])):
         f.append("subscriber-leaves")
     if any(e.get("op") == "sub" and e["t"] > 0 for e in case.get("events", [])):
